@@ -9,7 +9,7 @@
 EXTENDS Integers, Sequences, TLC
 CONSTANTS NB, MaxLen
 VARIABLES ops, cur, f
-Fields == <<"kind", "chain", "r", "w", "wb", "kh", "kw", "s", "pt", "pl", "pb", "pr", "blk", "lut", "lay", "tile", "tileo", "hi", "shift">>
+Fields == <<"kind", "chain", "r", "w", "wb", "kh", "kw", "s", "pt", "pl", "pb", "pr", "blk", "lut", "lay", "tile", "tileo", "hi", "shift", "w1">>
 Vals(fld) ==
   CASE fld = "kind" -> {"dma", "pool", "ew", "conv", "dw", "lutdma"}
     [] fld = "chain" -> 0..1          \* 1: read what the previous operation wrote (producer/consumer pair)
@@ -26,6 +26,7 @@ Vals(fld) ==
     [] fld = "tile" -> 0..3           \* IFM tiling: 0 one tile, 1 split by height, 2 split by width, 3 three tiles (h1 # h0)
     [] fld = "tileo" -> 0..1          \* OFM split by height
     [] fld = "hi" -> 0..1             \* (first operation only) buffers above 4 GiB on Ethos-U65
+    [] fld = "w1" -> 0..1             \* 1: give a single weight/scale range even on a two-core accelerator
     [] fld = "shift" -> 0..7          \* >= 4: the IFM starts that many rows into the buffer (aliases the tail of what a
                                       \* producer wrote there without being the same feature map)
 Init == ops = <<>> /\ cur = <<>> /\ f = 1
